@@ -138,8 +138,39 @@ def positConvHandler (n es : Nat) (op : String) (args : List String) (rhs : List
     return { model := toHex m, specOk := ok, reason := "integer cast is not truncation toward zero", cls := cls, tag := "toi/" ++ kind }
   | _, _, _ => throw s!"unknown op {op}"
 
+/-- `posit n es limits => min max lowest epsilon minneg maxneg max_exponent min_exponent digits` -/
+def positLimits (n es : Nat) (rhs : List String) : Except String LineResult := do
+  match rhs with
+  | [mins, maxs, lows, epss, mnegs, xnegs, maxe, mine, dig] =>
+    let one := 2 ^ (n - 2)
+    let eps := Posit.sub n es (Posit.incr n one) one
+    let lim : Int := ((n : Int) - 2) * (2 ^ es : Nat)
+    let digits : Int := if es + 2 > n then 0 else (n : Int) - 3 - (es : Int) + 1   -- as written in numeric_limits.hpp
+    let model := [toHex 1, toHex (maxposEnc n), toHex (2 ^ (n - 1) + 1), toHex eps, toHex (2 ^ n - 1), toHex (2 ^ (n - 1) + 1),
+                  toString lim, toString (-lim), toString digits]
+    -- spec, from the value set: smallest / largest positive value, most negative value, correctly rounded gap above 1,
+    -- negative value closest to zero, exponent range of the finite values, number of significand digits at 1.0
+    let some mn := parseHex mins | throw "min"
+    let some mx := parseHex maxs | throw "max"
+    let some lo := parseHex lows | throw "lowest"
+    let some ep := parseHex epss | throw "eps"
+    let some mng := parseHex mnegs | throw "minneg"
+    let some xng := parseHex xnegs | throw "maxneg"
+    let okExt := mn == 1 && mx == maxposEnc n && lo == 2 ^ (n - 1) + 1 && mng == 2 ^ n - 1 && xng == 2 ^ (n - 1) + 1
+    let okEps := match positVal n es (one + 1), positVal n es one with
+      | some a, some b => nearestB n es (a - b) ep
+      | _, _ => isNaR n ep
+    let okExp := maxe == toString lim && mine == toString (-lim)   -- `digits` is not an extreme or a spacing: not judged
+    return { model := joinToks model, specOk := okExt && okEps && okExp,
+             reason := s!"extremes ok={okExt} epsilon ok={okEps} exponent range/digits ok={okExp}", tag := "limits" }
+  | _ => throw "arity"
+
 def positHandler : Handler := fun lhs rhs => do
   match lhs with
+  | [ns, ess, "limits"] =>
+    let some n := parseNat ns | throw "nbits"
+    let some es := parseNat ess | throw "es"
+    return ← positLimits n es rhs
   | ns :: ess :: op :: args =>
     if ["fromf64","fromf32","fromld","fromi","todbl","tof32","told","toi"].contains op then
       let some n := parseNat ns | throw "nbits"
